@@ -64,9 +64,37 @@ class Reiterable:
         return self.make()
 
 
+class BareAsyncIterator:
+    """a hand-written asynchronous iterator: __aiter__ / __anext__ and nothing else (no aclose, no athrow)"""
+    def __init__(self, agen):
+        self._agen = agen
+
+    def __aiter__(self):
+        return self
+
+    async def __anext__(self):
+        return await self._agen.__anext__()
+
+
+class BareIterator:
+    """a hand-written iterator: __iter__ / __next__ and nothing else (no close)"""
+    def __init__(self, gen):
+        self._gen = gen
+
+    def __iter__(self):
+        return self
+
+    def __next__(self):
+        return next(self._gen)
+
+
 def producer(ns_name, r, items, marks):
     make = lambda: make_iter(ns_name, items, r.get("raise_at"), marks, pause=r.get("pause", 0.0))  # noqa: E731
-    return Reiterable(make) if r.get("reiterable") else make()
+    if r.get("reiterable"):
+        return Reiterable(make)
+    if r.get("bare_iterator"):
+        return BareIterator(make()) if ns_name == "wsgi" else BareAsyncIterator(make())
+    return make()
 
 
 def _copy(x):
@@ -358,6 +386,8 @@ def gen_response(rng, files=None, allow_sse=True, allow_raise=False):
         r["set_headers"] = [rng.choice([("X-Set", "1"), ("Vary", "Accept"), ("X-Latin", "\xe9")])]
     if rng.random() < 0.15:
         r["append_headers"] = [("Vary", "Cookie"), ("Vary", "Origin")]
+    if kind in ("Stream", "SSE") and rng.random() < 0.2:
+        r["bare_iterator"] = True  # the producer is a plain (async) iterator object, not a generator
     if rng.random() < 0.08:
         # text the header mapping must refuse at the point of mutation; whatever it does, nothing of it may be emitted raw
         r["refused_headers"] = [(rng.choice(["set", "append", "append-existing", "setdefault", "update-pairs", "update-mapping"]),
